@@ -245,3 +245,40 @@ def awaited_writes_obligations(ctx):
            "is awaited to completion (no wait_for / timeout around to_thread(store.import_one))")
 def g6(ctx):
     return awaited_writes_obligations(ctx)
+
+
+@rule("C08", "G7", floor=1, kind="S",
+      desc="the tag does not depend on reads: the 'no commit yet' answer (an empty tree) of the bare store is given only when "
+           "the ref does not resolve - the `except KeyError` covers the ref lookup and nothing else (a missing tree object "
+           "must be an error, not an empty collection with another tag)")
+def g7(ctx):
+    from .common import handler_body_nodes
+    f = ctx.own_method(GIT + ".BareGitStore", "_get_current_tree")
+    cfg = ctx.cfg(f)
+    obs = []
+    for h in cfg.handlers:
+        if not (h.types and "KeyError" in h.types):
+            continue
+        covered = [n for n in cfg.stmt_nodes() if any(m is h.entry and l == "exc" for m, l in n.succ)]
+        extra = []
+        for n in covered:
+            for e in n.exprs():
+                for x in ast.walk(e):
+                    if isinstance(x, ast.Subscript) and isinstance(x.ctx, ast.Load):
+                        k = dotted(x.slice) or src(x.slice)
+                        if k not in ("self.ref",) and not k.endswith(".ref"):
+                            extra.append(src(x)[:50])
+        obs.append(ctx.ob(not extra, f.qualname, where(f, h.entry), "`except KeyError` covers only the ref lookup", "try: self.repo[self.ref]",
+                          "the `except KeyError: return Tree()` of _get_current_tree also covers `%s`: an unreachable tree object is answered "
+                          "as an empty collection - the tag changes and changes back with only reads in between" % (extra[0] if extra else "")))
+    if not obs:
+        raise AnalysisError("BareGitStore._get_current_tree: `except KeyError` not found")
+    return obs
+
+
+@rule("C08", "G8", floor=4, kind="N",
+      desc="a refused or failed write leaves the tag alone: the index is written back only when the critical section "
+           "completed - on any exception the lock is aborted (same obligations as C04/B3)")
+def g8(ctx):
+    from .c04 import b3
+    return b3(ctx)
